@@ -414,6 +414,10 @@ func quiesce(base map[string]int, kn *known, absorb bool, wait time.Duration, fx
 			dirs = append(dirs, f.dir)
 			_, res, _, _ := f.c.Stats()
 			resNow[f.dir] = res
+			if res < kn.reserved[f.dir] {
+				// a reservation that was reported (and absorbed) earlier has been returned since: not a leak
+				kn.reserved[f.dir] = res
+			}
 			if res != kn.reserved[f.dir] {
 				q.reserved += int(res - kn.reserved[f.dir])
 				q.detail = append(q.detail, fmt.Sprintf("reserved bytes left (%s cache): %d", f.name(), res-kn.reserved[f.dir]))
